@@ -672,4 +672,168 @@ theorem link_get_stat_masked (l : LinkSkillset) (mask : List Nat) :
   simp only
   rw [masked_zip, masked_map]
 
+/-! ### facts about the generated tables of this run (kernel-checked), and what the property theorems of
+`Props/C19_Targets.lean` need from them -/
+
+/-- general: monotone in the character level everywhere -/
+theorem hyperstat_budget_step (L : Int) :
+    Hyperstat.get_maximum_cost_from_level L ≤ Hyperstat.get_maximum_cost_from_level (L + 1) := by
+  unfold Hyperstat.get_maximum_cost_from_level Systems.Hyperstat.get_maximum_cost_from_level
+    Systems.Hyperstat.get_maximum_cost_from_level.get_sumation_with_ten_step_unit
+    Systems.Hyperstat.get_maximum_cost_from_level.get_character_level_point
+  by_cases h1 : L < 140
+  · by_cases h2 : L + 1 < 140
+    · simp [h1, h2]
+    · have : L = 139 := by omega
+      subst this; decide
+  · have h2 : ¬ (L + 1 < 140) := by omega
+    simp only [h1, h2, if_false]
+    obtain ⟨q, r, hL, hr0, hr9⟩ : ∃ q r : Int, L = 10 * q + r ∧ 0 ≤ r ∧ r ≤ 9 := ⟨L / 10, L % 10, by omega, by omega, by omega⟩
+    have hq : 14 ≤ q := by omega
+    have e1 : L / 10 = q := by omega
+    have e2 : L % 10 = r := by omega
+    have e0 : (140 : Int) / 10 = 14 := by decide
+    by_cases hr : r = 9
+    · have e3 : (L + 1) / 10 = q + 1 := by omega
+      have e4 : (L + 1) % 10 = 0 := by omega
+      rw [e1, e2, e3, e4, e0, hr]
+      nlinarith
+    · have e3 : (L + 1) / 10 = q := by omega
+      have e4 : (L + 1) % 10 = r + 1 := by omega
+      rw [e1, e2, e3, e4, e0]
+      nlinarith
+
+theorem tbl_hyperstat_tables_ok : ∀ o ∈ Systems.hyperstat_options,
+    o.2.length = Systems.hyperstat_cost.length ∧ TableOk o.2 := by decide +kernel
+
+theorem tbl_hyperstat_cost_cells_nonneg : ∀ c ∈ Systems.hyperstat_cost, 0 ≤ c := by decide +kernel
+
+theorem kms_cost_nonneg : ∀ c ∈ kmsHyperstat.cost, 0 ≤ c := tbl_hyperstat_cost_cells_nonneg
+
+theorem kms_tables_ok : ∀ t ∈ kmsHyperstat.options.map (·.2), TableOk t := by
+  intro t ht
+  obtain ⟨o, ho, rfl⟩ := List.mem_map.mp ht
+  exact (tbl_hyperstat_tables_ok o ho).2
+
+theorem hyperstat_problem_value {c : Config} {budget : Rat} {ss mi : Nat} {s : State} {v : Rat}
+    (h : HyperstatTarget.get_value c kmsHyperstat s = some v) : (hyperstatProblem c budget ss mi).value s = v := by
+  simp [hyperstatProblem, optOr0, h]
+
+theorem hyperstat_problem_cost {c : Config} {budget : Rat} {ss mi : Nat} {s : State} {k : Int}
+    (h : HyperstatTarget.get_cost kmsHyperstat s = some k) : (hyperstatProblem c budget ss mi).cost s = (k : Rat) := by
+  simp [hyperstatProblem, optOr0, h]
+
+/-- a state that costs less than `overflowCost` has every slot at level ≤ `topLevel` -/
+theorem affordable_levels (s : State) (c : Int)
+    (h : HyperstatTarget.get_cost kmsHyperstat s = some c) (hc : c < overflowCost) : ∀ lv ∈ s, lv ≤ topLevel := by
+  rw [hyperstat_get_cost_eq] at h
+  split at h
+  · cases h
+    intro lv hlv
+    by_contra hcon
+    have h1 := le_sum_map (f := kmsHyperstat.get_cost_for_level)
+      (fun y _ => cost_for_level_nonneg kms_cost_nonneg y) hlv
+    have h2 := cost_for_level_mono kms_cost_nonneg (topLevel + 1) lv (by omega)
+    unfold overflowCost at hc
+    omega
+  · cases h
+
+/-- an affordable state (budget below `overflowCost`) of the right length has levels ≤ 15 -/
+theorem hyperstat_problem_affordable {c : Config} {budget : Rat} {ss mi : Nat} (hbud : budget < (overflowCost : Rat))
+    {s : State} (hlen : s.length = kmsHyperstat.length)
+    (hb : (hyperstatProblem c budget ss mi).cost s ≤ budget) : ∀ lv ∈ s, lv ≤ topLevel := by
+  have hk : HyperstatTarget.get_cost kmsHyperstat s = some ((s.map kmsHyperstat.get_cost_for_level).sum) := by
+    rw [hyperstat_get_cost_eq, if_pos hlen]
+  rw [hyperstat_problem_cost hk] at hb
+  have : (((s.map kmsHyperstat.get_cost_for_level).sum : Int) : Rat) < (overflowCost : Rat) := lt_of_le_of_lt hb hbud
+  exact affordable_levels s _ hk (by exact_mod_cast this)
+
+theorem tbl_unionSquad_blocks_ok : ∀ b ∈ allBlocks, OptGood (b.get_stat Systems.union_default_size) ∧
+    OptGood (b.get_stat Systems.union_large_size) ∧ TableOk b.options := by decide +kernel
+
+theorem tbl_unionSquad_jobs_nodup : (allBlocks.map (·.job)).Nodup := by decide +kernel
+
+theorem squadSlots_ok (large : List String) : ∀ o ∈ squadSlots (createWithSomeLargeBlocks large), OptGood o := by
+  intro o ho
+  unfold squadSlots createWithSomeLargeBlocks at ho
+  simp only [zip_map_self, List.map_map] at ho
+  obtain ⟨b, hb, rfl⟩ := List.mem_map.mp ho
+  have := tbl_unionSquad_blocks_ok b hb
+  simp only [Function.comp_apply]
+  split
+  · exact this.2.1
+  · exact this.1
+
+theorem squad_nodup (large : List String) :
+    (((createWithSomeLargeBlocks large).blocks.zip (createWithSomeLargeBlocks large).block_size).map
+      (·.1.job)).Nodup := by
+  unfold createWithSomeLargeBlocks
+  simp only [zip_map_self, List.map_map]
+  exact tbl_unionSquad_jobs_nodup
+
+theorem unionSquad_get_value_eq (c : Config) (large : List String) (s : State) :
+    UnionSquadTarget.get_value c (createWithSomeLargeBlocks large) s =
+      (accumulate Stat.zero (masked s (squadSlots (createWithSomeLargeBlocks large)))).map c.value := by
+  unfold UnionSquadTarget.get_value
+  rw [squad_get_stat_masked _ (squad_nodup large)]
+
+theorem tbl_linkSkill_slots_ok : ∀ o ∈ linkSlots kmsLinkSkillset, OptGood o := by decide +kernel
+
+theorem tbl_linkSkill_tables_ok : ∀ l ∈ allLinkSkills, TableOk l.options := by decide +kernel
+
+theorem linkSkill_get_value_eq (c : Config) (s : State) :
+    LinkSkillTarget.get_value c kmsLinkSkillset s =
+      (accumulate Stat.zero (masked s (linkSlots kmsLinkSkillset))).map c.value := by
+  unfold LinkSkillTarget.get_value
+  rw [link_get_stat_masked]
+
+theorem tbl_unionOccupation_tables_ok : ∀ t ∈ Systems.union_occupation_values,
+    t.length = maximumStep .unionOccupation + 1 ∧ TableOk (t.map (·.1)) := by decide +kernel
+
+theorem unionOccupation_get_value_eq (c : Config) (s : State) :
+    UnionOccupationTarget.get_value c defaultUnionOccupation s =
+      if s.length = defaultUnionOccupation.length then
+        (lookupAll (defaultUnionOccupation.occupation_value.map (·.map (·.1))) s).map fun xs => c.value (pySumStat xs)
+      else none := by
+  unfold UnionOccupationTarget.get_value UnionOccupation.get_occupation_rearranged
+  by_cases hl : s.length = defaultUnionOccupation.length
+  · simp only [hl, if_true, UnionOccupation.get_stat, Option.map_map, lookupAll_map]
+    rfl
+  · simp only [hl, if_false]
+
+theorem occupation_tables_ok' : ∀ t ∈ defaultUnionOccupation.occupation_value.map (·.map (·.1)), TableOk t := by
+  intro t ht
+  obtain ⟨o, ho, rfl⟩ := List.mem_map.mp ht
+  exact (tbl_unionOccupation_tables_ok o ho).2
+
+theorem lookupAll_none_of_big {α : Type} : ∀ (tables : List (List α)) (s : List Nat) (m : Nat),
+    (∀ t ∈ tables, t.length ≤ m + 1) → s.length ≤ tables.length → (∃ x ∈ s, m < x) →
+      lookupAll tables s = none := by
+  intro tables
+  induction tables with
+  | nil =>
+    intro s m _ hl ⟨x, hx, _⟩
+    cases s with
+    | nil => cases hx
+    | cons _ _ => simp at hl
+  | cons t ts ih =>
+    intro s m hT hl ⟨x, hx, hbig⟩
+    cases s with
+    | nil => cases hx
+    | cons i is =>
+      rw [lookupAll_cons]
+      rcases List.mem_cons.mp hx with rfl | hx
+      · have : t[x]? = none := by
+          rw [List.getElem?_eq_none_iff]; have := hT t (List.mem_cons_self ..); omega
+        rw [this]
+      · rw [ih is m (fun t' h' => hT t' (List.mem_cons_of_mem _ h')) (by simpa using hl) ⟨x, hx, hbig⟩]
+        cases t[i]? <;> rfl
+
+/-- a configuration in the positive-damage domain: a STR logic, armour 300 with 85% ignore-defence -/
+def exampleConfig : Config :=
+  { default_stat := { STR := 12000, DEX := 2500, attack_power := 1500, critical_rate := 60, critical_damage := 40,
+                      damage_multiplier := 120, boss_damage_multiplier := 150, ignored_defence := 85,
+                      final_damage_multiplier := 10 },
+    damage_logic := .str ⟨6 / 5, 9 / 10⟩ }
+
 end Simaple.Proofs.Targets
